@@ -465,7 +465,7 @@ pub fn run(a: &Args, acc: &mut Acc) {
                 }
                 if mask & 2 != 0 && !corrupted {
                     let ap = after.get("protocol_chain_config").cloned().unwrap_or(Value::Null);
-                    if vs(&ap, "ibc_channel_id") != vs(&p2, "ibc_channel_id") || vu128(&ap, "minimum_liquid_stake_amount") != vu128(&p2, "minimum_liquid_stake_amount") || ap.get("oracle_address") != p2.get("oracle_address") || vs(&ap, "ibc_token_denom") != vs(&p2, "ibc_token_denom") || vs(&ap, "account_address_prefix") != vs(&p2, "account_address_prefix") {
+                    if vs(&ap, "ibc_channel_id") != vs(&p2, "ibc_channel_id") || vu128(&ap, "minimum_liquid_stake_amount") != vu128(&p2, "minimum_liquid_stake_amount") || ap.get("oracle_address") != p2.get("oracle_address") || vs(&ap, "ibc_token_denom") != vs(&p2, "ibc_token_denom") || vs(&ap, "account_address_prefix").to_lowercase() != vs(&p2, "account_address_prefix").to_lowercase() {
                         report(acc, format!("UpdateConfig (sections {mask:05b}) did not store the supplied protocol section: {ap} vs {p2}"), case.clone());
                     }
                 }
